@@ -686,7 +686,9 @@ def check_loopback(ctx, results, scs):
             "eventPosition": {"latitude": r["pos"][0], "longitude": r["pos"][1]}}}}
         bad = oracle_rx(d, st)
         if bad:
-            ctx.violation("loopback of an emitted DENM: " + "; ".join(bad), {"kind": "rx", "denm": _COD.decode(r["data"])})
+            dec = _COD.decode(r["data"])   # management container only: JSON-safe (no CHOICE tuples), enough for the LDM feed
+            ctx.violation("loopback of an emitted DENM: " + "; ".join(bad),
+                          {"kind": "rx", "denm": {"header": dec["header"], "denm": {"management": dec["denm"]["management"]}}})
     ctx.cover("loopback_tx_to_rx", len(pairs))
 
 
@@ -707,10 +709,10 @@ def run(ctx):
             check_rx(ctx, rxs)
         check_degenerate(ctx)
         fixed = [copy.deepcopy(s) for s in FIXED_SCENARIOS]
-        gen = [gen_scenario(ctx.rng) for _ in range(ctx.scale(600, 30000))]
+        gen = [gen_scenario(ctx.rng) for _ in range(ctx.scale(600, 9000))]
         res = check_scenarios(ctx, fixed + gen)
         check_loopback(ctx, res, fixed + gen)
-        check_rx(ctx, [gen_rx_denm(ctx.rng) for _ in range(ctx.scale(3000, 100000))])
+        check_rx(ctx, [gen_rx_denm(ctx.rng) for _ in range(ctx.scale(3000, 60000))])
 
 
 def search(ctx):
@@ -718,7 +720,7 @@ def search(ctx):
     ctx.model_ok = False
     try:
         with rs.quiet():
-            check_scenarios(ctx, [gen_scenario(ctx.rng) for _ in range(ctx.scale(3600, 90000))])
+            check_scenarios(ctx, [gen_scenario(ctx.rng) for _ in range(ctx.scale(3600, 27000))])
             check_rx(ctx, [gen_rx_denm(ctx.rng) for _ in range(ctx.scale(9000, 300000))])
     finally:
         ctx.model_ok = ok
